@@ -288,7 +288,11 @@ func Translate(sql string) (*Translated, error) {
 		case c == '|' || c == '&':
 			return nil, fmt.Errorf("%w: operator %c", ErrUntranslatable, c)
 		case c == '<' && strings.HasPrefix(sql[i:], "<=>"):
-			return nil, fmt.Errorf("%w: operator <=>", ErrUntranslatable)
+			// NULL-safe equality is PostgreSQL's IS NOT DISTINCT FROM (evaluated by fakepg's ext.go)
+			b.WriteString(" is not distinct from ")
+			i += 3
+			lastIdentStart = -1
+			state = stNone
 		case c == ';':
 			if strings.TrimSpace(sql[i+1:]) != "" {
 				return nil, fmt.Errorf("%w: multiple statements", ErrUntranslatable)
